@@ -1453,7 +1453,9 @@ class BinaryOperator(SymbolicExpression, ABC):
             for conc in self._conclusion_:
                 required_vars.update(conc._unique_variables_)
         if self._parent_:
-            required_vars.update(self._parent_._required_variables_from_child_(self, when_true))
+            # a false operand makes this node false, a true operand does not make it true (the other operand may fail):
+            # then its truth is not known yet, and the parent has to require what it needs in either case.
+            required_vars.update(self._parent_._required_variables_from_child_(self, False if when_true is False else None))
         return required_vars
 
 
